@@ -93,6 +93,15 @@ def run_c16(tier, seed):
     for _ in range(3 if tier == "quick" else 30):
         add([[("INCR", [b"hot"])] * 40 for _ in range(8)], "8 clients x 40 INCR on one key")
         add([[("INCRBY", [b"hot2", b"3"]), ("DECR", [b"hot2"])] * 15 for _ in range(6)], "6 clients x 15 (INCRBY 3 ; DECR) on one key")
+    # a command that touches MANY keys is atomic like any other: while one client deletes (or sets) a long list of keys, another reads
+    # and writes keys late in that list; whatever is observed fits an order in which the long command happened at one point
+    for _ in range(2 if tier == "quick" else 20):
+        for nk in T.extend([70, 300], 8, 5000, limit=3):
+            keys = [b"m%04d" % i for i in range(nk)]
+            late = keys[-3:]
+            a = [("MSET", [x for k in keys for x in (k, b"old")]), ("DEL", keys), ("MGET", late)]
+            b = [("GET", [late[0]]), ("SET", [late[1], b"new"]), ("GET", [late[1]]), ("GET", [late[2]])]
+            add([a, b, [("GET", [late[1]]), ("EXISTS", late)]], "one client MSETs and DELs %d keys while two others read and write the last of them" % nk)
     # random short histories over 1..3 keys by 2..8 clients
     for _ in range(1500 if tier == "quick" else 30000):
         keys = [b"k1", b"k2", b"k3"][:rng.randint(1, 3)]
@@ -144,7 +153,7 @@ def run_c16(tier, seed):
             if nm == "SET":
                 written.setdefault(a_[0], set()).add(a_[1])
             elif nm != "GET":
-                touched_otherwise.update(a_[:1] if nm not in ("MSETNX", "MGET") else a_)
+                touched_otherwise.update(a_)      # (every argument: over-approximates the keys the command touches)
         ghost = None
         for (ci_, (nm, a_), rep, _, _) in ops:
             if nm == "GET" and a_[0] not in touched_otherwise and rep.startswith(b"$") and not rep.startswith(b"$-1"):
